@@ -359,7 +359,7 @@ def run(M, rep, tier, only=None):
         alpha = sorted({ch for a, b in rules for ch in a + b} | {"x"})
         witnesses = []
         n = 0
-        for L in range(1, 5):
+        for L in range(1, 6 if tier == "thorough" else 5):
             for tup in itertools.product(alpha, repeat=L):
                 s = "".join(tup)
                 n += 1
